@@ -45,6 +45,23 @@ def proc_rows(chk):
     return rows, na
 
 
+def report_unanalysable(chk, rule, rows, na, only_cmd=None):
+    """Unanalysable leaves of process_packet: the rule cannot decide the property there - fail closed."""
+    prog = chk.an.prog
+    n = 0
+    for r in rows:
+        if r.lf.kind != 'unanalysable':
+            continue
+        if only_cmd is not None and not (r.cmd is not None and r.cmd & frozenset(only_cmd)):
+            continue
+        n += 1
+        chk.ob(rule, r.sub + ' (unanalysable path)', False,
+               chk.key(ENT, rule, r.fn, 'cannot-certify:cmd=%s:%s' % (allowed_desc(r.lf.know, byte_leaf(10)), r.lf.panic[1][:120])),
+               'cannot certify: a path of process_packet (command %s) cannot be analysed: %s' % (allowed_desc(r.lf.know, byte_leaf(10)), r.lf.panic[1]),
+               site=r.sp, detail={'leaf': dump_leaf(r.lf, prog, na, heap=False), 'call_path': call_path(r.lf)})
+    return n
+
+
 def cmd_is(r, code):
     return r.cmd is not None and r.cmd == frozenset([code])
 
@@ -56,8 +73,9 @@ def pinned(lf, leaf):
     return None
 
 
-def resp_chain(r):
-    return E.chain(r.lf.know, r.atoms, r.resp_len)
+def resp_chain(r, strict=False):
+    """The response bytes [0, len) in order. Only C11 (strict) insists that nothing beyond len is written."""
+    return E.chain(r.lf.know, r.atoms, r.resp_len, allow_beyond=not strict)
 
 
 def cellval(ordered, i):
@@ -80,7 +98,7 @@ def c11(chk):
     chk.assumptions = ['process_packet under the valid-configuration precondition; its panic leaves are judged once, by C10']
     rows, na = proc_rows(chk)
     dleaves, dna = an.leaves('ctx.decode_packet')
-    n = 0
+    n = report_unanalysable(chk, 'C11.a', rows, na)
     for r in rows:
         lf = r.lf
         if lf.kind != 'return':
@@ -121,16 +139,17 @@ def c11(chk):
         # C11.b / C11.c
         wrote = bool(r.atoms) or any(e[0] == 'outwrite' for e in lf.effects)
         if r.responds or wrote:
-            t8 = lf.know.leaf_allowed(byte_leaf(8))
             t9 = lf.know.leaf_allowed(byte_leaf(9))
-            is_req = r.ok and t8 == frozenset([0x00]) and t9 is not None and all(v >> 7 for v in t9) and is_ok(prog, dres)
+            is_ctl = is_ok(prog, dres) and dres[3][0][0] == 'tuple' and dres[3][0][1][0][0] == 'adt' and \
+                variant_name(prog, dres[3][0][1][0]) == 'MCtpControl'
+            is_req = r.ok and is_ctl and t9 is not None and all(v >> 7 for v in t9)
             chk.ob('C11.b', r.sub, is_req,
                    chk.key(ENT, 'C11.b', r.fn, 'responds-to-non-request:type=%s:hdr=%s' % (allowed_desc(lf.know, byte_leaf(8)), allowed_desc(lf.know, byte_leaf(9)))),
                    'processing writes a response for an input that is not an accepted control request (type %s, control header %s, result %s)' % (
                        allowed_desc(lf.know, byte_leaf(8)), allowed_desc(lf.know, byte_leaf(9)), show_value(lf.value, prog)[:80]),
                    site=r.sp, detail={'leaf': dump_leaf(lf, prog, na)})
             if r.responds:
-                ordered, why = resp_chain(r)
+                ordered, why = resp_chain(r, strict=True)
                 chk.ob('C11.c', r.sub + ' range', ordered is not None,
                        chk.key(ENT, 'C11.c', r.fn, 'range:cmd=%s:%s' % (allowed_desc(lf.know, byte_leaf(10)), why)),
                        'the response does not occupy exactly the reported %s bytes: %s' % (show_term(simp(lf.know, r.resp_len)), why),
@@ -164,7 +183,7 @@ def c12(chk):
         key = ENT
         entry = ENT
         inst = prog.instances[an.entries[ENT]['key']]
-    n = 0
+    n = report_unanalysable(chk, 'C12.layout', rows, na)
     for r in rows:
         if not r.responds:
             continue
@@ -224,7 +243,7 @@ def c12(chk):
                 ok = False
         chk.ob('C12.new', 'MCTPSMBusContext::new', ok, chk.key('ctx.new', 'C12.new', an.entries['ctx.new']['key'], 'address-not-shared'),
                'MCTPSMBusContext::new does not give both halves the address it was constructed with')
-    chk.floor('responding leaves', n, 40)
+    chk.floor('responding leaves (plus reported unanalysable paths)', n, 40)
 
 
 def struct_field(prog, v, name):
@@ -306,6 +325,16 @@ def frame_scan(prog):
 
 # ------------------------------------------------------------------------------ C13
 
+def covered_after(chk):
+    """Instances interpreted as part of some analysed entry point (forces the scan of all entries first)."""
+    an = chk.an
+    if not getattr(chk, '_all_entries_done', False):
+        for name in sorted(an.entries):
+            an.leaves(name)
+        chk._all_entries_done = True
+    return an.interp_stats['instances']
+
+
 def c13(chk):
     an, prog = chk.an, chk.an.prog
     chk.explanation = (
@@ -329,7 +358,8 @@ def c13(chk):
                      ("smbus::MCTPSMBusContext::<'_>::process_packet", 'set')}
     got_cell = set((k, m) for k, m, _ in cell_calls)
     for k, m, at in cell_calls:
-        ok = (k, m) in expected_cell or (k.endswith('::set_eid') and m in ('set', 'replace'))
+        # a function the interpreter covers has its cell writes judged precisely (with the cell's path) by C13.b/c below
+        ok = (k, m) in expected_cell or (k.endswith('::set_eid') and m in ('set', 'replace')) or k in covered_after(chk)
         chk.ob('C13.a', 'cell mutation in %s' % k, ok, chk.key('crate', 'C13.a', k, 'cell-mutator:%s' % m),
                'state cell mutated by an unexpected function: %s calls Cell::%s' % (k, m), site=at)
     for k, callee, at in setter_calls:
@@ -371,7 +401,7 @@ def c13(chk):
     rows, na = proc_rows(chk)
     pa = pec_atom()
     REQ_EID, RESP_EID = 'self.request.eid', 'self.response.eid'
-    n_assign = 0
+    n_assign = report_unanalysable(chk, 'C13.b', rows, na)
     for r in rows:
         lf, know = r.lf, r.lf.know
         writes = [(e[1], e[2]) for e in lf.effects if e[0] == 'cellwrite' and e[1].endswith('.eid')]
@@ -380,7 +410,8 @@ def c13(chk):
         n_assign += 1
         chk.evals()
         op = know.leaf_allowed(byte_leaf(11))
-        guard_ok = (pec_state(lf, pa) is True and know.leaf_allowed(byte_leaf(8)) == frozenset([0]) and
+        is_ctl = r.pair is not None and r.pair[0] == 'tuple' and r.pair[1][0][0] == 'adt' and variant_name(prog, r.pair[1][0]) == 'MCtpControl'
+        guard_ok = (pec_state(lf, pa) is True and (is_ctl or lf.kind != 'return') and
                     all(v >> 7 for v in know.leaf_allowed(byte_leaf(9))) and cmd_is(r, CC['SetEndpointID']) and
                     op is not None and op <= frozenset([0, 1]))
         chk.ob('C13.b', r.sub + ' guard', guard_ok,
@@ -502,6 +533,7 @@ def c14(chk):
     def byte_of(leaf, sh):
         return mk_bv(8, tuple((leaf, sh + k) for k in range(8)))
     vrows = [r for r in rows if r.responds and cmd_is(r, CC['GetVendorDefinedMessageSupport'])]
+    n_un = report_unanalysable(chk, 'C14.layout', rows, na, only_cmd=[CC['GetVendorDefinedMessageSupport']])
     inrange = []
     for r in vrows:
         # selector < n on this leaf?
@@ -509,7 +541,7 @@ def c14(chk):
         d = r.lf.know.decide(a[1]) if a[0] == 'atom' else bool(a[2])
         if d is True:
             inrange.append(r)
-    chk.floor('in-range vendor support leaves', len(inrange), 4)
+    chk.floor('in-range vendor support leaves (plus reported unanalysable paths)', len(inrange) + n_un, 4)
     for r in inrange:
         lf, know = r.lf, r.lf.know
         ordered, why = resp_chain(r)
@@ -553,16 +585,16 @@ def c14(chk):
                     except CannotEval:
                         hits.append(r)
                 want = 0xFF if i + 1 == n else i + 1
-                ok = len(hits) == 1
+                ok = len(hits) >= 1
                 got = None
-                if ok:
-                    ordered, why = resp_chain(hits[0])
+                for h in hits:
+                    ordered, why = resp_chain(h)
                     c = cellval(ordered, 12) if ordered else None
                     try:
                         got = eval_term(c, env) & 0xFF if c is not None else None
                     except CannotEval:
                         got = None
-                    ok = got == want
+                    ok = ok and got == want
                 chk.evals()
                 chk.ob('C14.selector', 'selector %d of %d (format %d)' % (i, n, f), ok,
                        chk.key(ENT, 'C14.selector', ENT, 'pair:i=%d:n=%d:expected=%02X:actual=%s' % (i, n, want, got)),
@@ -587,6 +619,7 @@ def c15(chk):
     chk.rules_text = 'R-layout on three kinds of responding leaves; R-frame (heap writes over all analysed entries + L0 scan); R-dep on free symbols'
     chk.assumptions = ['at most 30 configured message types (the documented maximum; more makes the encoder refuse and the handler panic, outside "validly configured")']
     rows, na = proc_rows(chk)
+    n_un = report_unanalysable(chk, 'C15.layout', rows, na, only_cmd=[CC['GetMessageTypeSupport'], CC['GetEndpointUUID'], CC['GetMCTPVersionSupport']])
     counts = set()
     for r in rows:
         if not r.responds:
@@ -634,10 +667,9 @@ def c15(chk):
             if a[0] == 'cell':
                 syms |= leaves_of(a[2])
         bad = [l for l in syms if not dep_allowed(l)]
-        cellreads = [e for e in lf.effects if e[0] == 'cellread']
-        chk.ob('C15.dep', r.sub, not bad and not cellreads,
-               chk.key(ENT, 'C15.dep', r.fn, '%s:depends-on:%s' % (which, ','.join(sorted(show_leaf(l) for l in bad) + [e[1] for e in cellreads]))),
-               'the answer to the %s query depends on %s' % (which, ', '.join(sorted(show_leaf(l) for l in bad) + [e[1] for e in cellreads])), site=r.sp)
+        chk.ob('C15.dep', r.sub, not bad,
+               chk.key(ENT, 'C15.dep', r.fn, '%s:depends-on:%s' % (which, ','.join(sorted(show_leaf(l) for l in bad)))),
+               'the answer to the %s query depends on %s' % (which, ', '.join(sorted(show_leaf(l) for l in bad))), site=r.sp)
     chk.ob('C15.layout', 'message type list lengths 0..30 all analysed', counts == set(range(31)),
            chk.key(ENT, 'C15.layout', ENT, 'types:lengths-covered:%d' % len(counts)),
            'only %d of the 31 list lengths 0..30 have a responding path' % len(counts))
